@@ -2013,6 +2013,36 @@ class FFAliasWrite(Base):
       s.o @= s.regs[0] ^ s.regs[1] ^ s.regs[2]
 
 
+# ------------------------------------------------------------------ second references to signals (plain bookkeeping attributes)
+@design(lambda st, a, b, sel, en, reset: (None, {"o": (a + 1) & M8, "p": (b + 2) & M8, "q": ((a + 1) ^ (b + 2)) & M8}))
+class SecondReferences(Base):
+  """wires that are also kept in a list attribute and under a second attribute name; they are written by blocks and read through nets
+  and through the list"""
+  def construct(s):
+    s.ports()
+    s.o = OutPort(Bits8)
+    s.p = OutPort(Bits8)
+    s.q = OutPort(Bits8)
+    s.w1 = Wire(Bits8)
+    s.w2 = Wire(Bits8)
+    s.ws = [s.w1, s.w2]
+    s.first = s.w1
+    s.o //= s.w1
+    s.p //= s.w2
+
+    @update
+    def up_sr_1():
+      s.w1 @= s.a + 1
+
+    @update
+    def up_sr_2():
+      s.w2 @= s.b + 2
+
+    @update
+    def up_sr_q():
+      s.q @= s.ws[0] ^ s.ws[1]
+
+
 def sequences():
   """input sequences (lists of dicts): one long deterministic walk covering every (sel, en) with varied a, b; reset pulses inside"""
   A = (0, 1, 0x5A, 0xFF, 0x80, 0x0F, 0x37)
